@@ -88,7 +88,7 @@ func main() {
 	var framePlans []framePlan
 	var combPlans []combPlan
 	allTerms := []terminal{{"Reader/out=1", 1}, {"Reader/out=3", 3}, {"WriteTo", 0}}
-	const others = "string-keys pair-keys"
+	const others = "string-keys pair-keys int-keys+struct-values"
 	all4 := []int{1, 2, 3, 5}
 	if r.Thorough() {
 		// simplest first: when the soft budget is hit only the deepest levels are cut
